@@ -272,6 +272,13 @@ Definition pi_lookup (st : pindex) (now : Z) (needed : list N) : pindex * option
         else (st', None)
   end.
 
+(* the denial rung inside a request tree (lookupNXDomainCut / lookupDenialProof
+   + boundRequestTo): it answers like a cut ([cut_serve d now]) and folds its
+   deadline [d] into the request tree before anything is assembled from it; an
+   alias answer fetched in the same tree folds its lease as well *)
+Definition denial_rung_bound (m : option Z) (d : Z) (lease : option Z) : option Z :=
+  bound (bound m (Some d)) lease.
+
 (* DNS64 (middleware/dns64 responseWriter.synthesise) composing from what the
    cache below it served: the AAAA NODATA answer and the A answer of the
    sub-query.  A piece is either fresh from downstream (its upstream TTLs) or a
